@@ -1,4 +1,5 @@
 import RubyTi.Model.Scope
+import RubyTi.Gen.BlockFacts
 import RubyTi.Props.C19
 
 /-!
@@ -82,6 +83,27 @@ theorem surplus_nil (t : Table κ ν) (vars : List κ) (params : List ν) (nilT 
     lookup (bindParams t vars params nilT) vars[i] = some nilT := by
   rw [param_bound t vars params nilT hd i hi]
   simp [List.getD, List.getElem?_eq_none hs]
+
+/-- **The loop the source has now is the modelled loop**: the switches the extractor reads off
+`Do.setBlockParameters` (guard `len(blockParameters) <= idx`, surplus branch binds nil and goes on,
+other branch binds `&blockParameters[idx]` and goes on) make the regenerated loop equal to `bindParams`,
+for every table, variable list and parameter list. A `break`/`return` in either branch, a changed guard or
+a changed bound value flips a switch and this theorem no longer checks. -/
+theorem generated_loop_is_bindParams (t : Table κ ν) (vars : List κ) (params : List ν) (nilT : ν) :
+    bindParamsG Gen.blockSurplusGuard Gen.blockSurplusBindsNil Gen.blockSurplusGoesOn
+      Gen.blockBoundBindsIdx Gen.blockBoundGoesOn t vars params nilT = bindParams t vars params nilT :=
+  bindParamsG_all t vars params nilT
+
+/-- surplus variables are nil in the regenerated loop -/
+theorem generated_surplus_nil (t : Table κ ν) (vars : List κ) (params : List ν) (nilT : ν) (hd : vars.Nodup)
+    (i : Nat) (hi : i < vars.length) (hs : params.length ≤ i) :
+    lookup (bindParamsG Gen.blockSurplusGuard Gen.blockSurplusBindsNil Gen.blockSurplusGoesOn
+      Gen.blockBoundBindsIdx Gen.blockBoundGoesOn t vars params nilT) vars[i] = some nilT := by
+  rw [generated_loop_is_bindParams]; exact surplus_nil t vars params nilT hd i hi hs
+
+/-- what a `break` after the first surplus variable would do (the loop with `sOn = false`): the third of
+three variables on a one-value method stays unbound -/
+example : lookup (bindParamsG true true false true true ([] : Table Nat Nat) [1, 2, 3] [7] 0) 3 = none := by decide
 
 /-- non-vacuity: a block that assigns a fresh local and an outer variable, with one shadowing parameter -/
 example :
